@@ -64,6 +64,7 @@ type WScn struct {
 	CloseFrames  int             // close after this many command frames were received and handled (0 = no)
 	CloseTime    time.Duration   // close at this time (0 = no)
 	RST          bool
+	Garbage      bool // instead of closing, send a frame with a bad check code: the reader gives up and the SERVER closes
 	Slack        time.Duration
 }
 
@@ -80,6 +81,7 @@ type WHist struct {
 	Viol   []WViol
 	NCalls int
 	Kinds  map[string]int // result kinds
+	Note   string         // witness runners: "setup-failed: ..." when the witness could not be set up, "reproduced" / "not-reproduced" otherwise
 }
 
 // Request is the `wexp` line for the oracle.
@@ -310,9 +312,17 @@ func (r *wrun) doClose() {
 		return
 	}
 	lo := r.us()
-	if r.sc.RST {
+	switch {
+	case r.sc.Garbage: // a live peer whose data does not parse: connection.reader returns on the parse error
+		bad := TFrame(0x0002, r.t.Phone, r.t.NextSerial(), nil)
+		bad[len(bad)-2] ^= 0x55
+		if bad[len(bad)-2] == 0x7e || bad[len(bad)-2] == 0x7d {
+			bad[len(bad)-2] = 0x11
+		}
+		r.t.Conn.Write(bad)
+	case r.sc.RST:
 		r.t.Reset()
-	} else {
+	default:
 		r.t.Close()
 	}
 	hi := r.us()
@@ -916,7 +926,7 @@ func (r *wrun) check(h *WHist) {
 
 // ---------------------------------------------------------------- scenario generators
 
-var WKinds = []string{"reissue", "reissue-close", "stall", "stall-close", "frag", "default0", "flood-close", "burst", "order", "late", "dup", "unknown", "bad", "never", "mixed", "attr", "notmo", "prejoin", "wrap",
+var WKinds = []string{"garbage-close", "reissue", "reissue-close", "stall", "stall-close", "frag", "default0", "flood-close", "burst", "order", "late", "dup", "unknown", "bad", "never", "mixed", "attr", "notmo", "prejoin", "wrap",
 	"close-idle", "close-queued", "close-outstanding", "close-afterresp", "close-timer", "close-early", "rst-outstanding"}
 
 func ms(n int) time.Duration { return time.Duration(n) * time.Millisecond }
@@ -975,7 +985,7 @@ func GenW(kind string, seed int64) *WScn {
 			sc.Acts[0] = WAct{Kind: "delay", Delay: ms(rng.Intn(200))}
 		}
 		beats(1, 50)
-		if rng.Intn(3) == 0 { // ... or released by a disconnect while the 3 s timer is still asleep
+		if rng.Intn(2) == 0 { // ... or released by a disconnect while the 3 s timer is still asleep
 			sc.CloseTime = ms(100 + rng.Intn(400))
 			sc.RST = rng.Intn(2) == 0
 		}
@@ -1136,6 +1146,13 @@ func GenW(kind string, seed int64) *WScn {
 		}
 		sc.CloseTime = ms(10 + rng.Intn(40))
 		sc.RST = kind == "rst-outstanding"
+	case "garbage-close": // not a close: a frame with a bad check code from a live peer; the server tears the connection down
+		for i := 0; i < k; i++ {
+			sc.Calls = append(sc.Calls, mk(i, to()))
+			sc.Acts = append(sc.Acts, WAct{Kind: []string{"never", "now"}[rng.Intn(2)]})
+		}
+		sc.CloseTime = ms(5 + rng.Intn(40))
+		sc.Garbage = true
 	case "close-afterresp": // close right after answering
 		for i := 0; i < k; i++ {
 			sc.Calls = append(sc.Calls, mk(i, to()))
@@ -1184,25 +1201,38 @@ func (sc *WScn) Describe() string {
 
 // ---------------------------------------------------------------- witnesses of the two recorded findings
 
-// RunReuse: finding C12/serial-reuse.  Command A (no timeout) is written and never answered; 65 535 heartbeats
-// later the serial counter is back at A's serial; command B (no timeout) is written with it and record[seq] is
-// overwritten; the terminal disconnects.  Required: both callers are released by the disconnect.
-func RunReuse(s *Srv, seed int64) *WHist {
+// RunReuse: finding C12/serial-reuse.  Command A is written and never answered; 65 535 heartbeats later the serial
+// counter is back at A's serial; command B is written with it and record[seq] is overwritten.
+//
+//	timer = false: A and B have no timeout; the terminal disconnects.  Required: both callers are released.
+//	timer = true:  A has the 3 s default timeout, B a 20 s one; nobody disconnects.  Required: A times out after
+//	               3 s and B is still waiting then.  (With the defect A's timer completes B: B gets a timeout after
+//	               about 2 s of its 20, A is never answered.)
+func RunReuse(s *Srv, seed int64, timer bool) *WHist {
 	h := &WHist{Join: "o", Kinds: map[string]int{}, NCalls: 2}
+	fail := func(why string) *WHist { h.Note = "setup-failed: " + why; return h }
 	phone := fmt.Sprintf("177%08d", seed%100000000)
+	if timer {
+		phone = fmt.Sprintf("176%08d", seed%100000000)
+	}
 	t, err := DialTerm(s.Addr, phone)
 	if err != nil {
-		return h
+		return fail("dial: " + err.Error())
 	}
 	defer t.Close()
 	t.Send(0x0002, nil)
 	if _, ok, _ := t.Next(3 * time.Second); !ok {
-		return h
+		return fail("no reply to the first heartbeat")
 	}
-	chA := s.Call(phone, 0x8103, []byte{0xA0, byte(seed)}, -1)
+	toA, toB := time.Duration(-1), time.Duration(-1)
+	if timer {
+		toA, toB = 0, 20*time.Second
+	}
+	t0 := time.Now()
+	chA := s.Call(phone, 0x8103, []byte{0xA0, byte(seed)}, toA)
 	fa, ok, _ := t.Next(3 * time.Second)
 	if !ok {
-		return h
+		return fail("command A was not written")
 	}
 	for left := 65535; left > 0; {
 		n := left
@@ -1216,25 +1246,49 @@ func RunReuse(s *Srv, seed int64) *WHist {
 		t.SendRaw(buf)
 		for i := 0; i < n; i++ {
 			if _, ok, _ := t.Next(3 * time.Second); !ok {
-				return h
+				return fail(fmt.Sprintf("heartbeat replies stopped with %d to go", left-i))
 			}
 		}
 		left -= n
 	}
-	chB := s.Call(phone, 0x8104, []byte{0xB0, byte(seed)}, -1)
+	if timer && time.Since(t0) > 2500*time.Millisecond {
+		return fail(fmt.Sprintf("65535 heartbeats took %v: A's 3 s timer is too close", time.Since(t0)))
+	}
+	tb := time.Now()
+	chB := s.Call(phone, 0x8104, []byte{0xB0, byte(seed)}, toB)
 	fb, ok, _ := t.Next(3 * time.Second)
 	if !ok {
-		return h
+		return fail("command B was not written")
 	}
-	t.Close()
-	ra, rb := Await(chA, 3*time.Second), Await(chB, 3*time.Second)
+	if fb.Serial != fa.Serial {
+		return fail(fmt.Sprintf("B got serial %d, A had %d", fb.Serial, fa.Serial))
+	}
+	var ra, rb CallRes
+	bad := false
+	if timer {
+		ra = Await(chA, 3*time.Second+2*time.Second-time.Since(t0))
+		rb = Await(chB, 10*time.Millisecond) // B's own timer has 20 s to go
+		bad = ra.Kind != "timeout" || rb.Kind != "hang"
+		if rb.Kind != "hang" {
+			rb.Raw = fmt.Sprintf("%s %v after its invocation", rb.Kind, time.Since(tb).Round(time.Millisecond))
+		}
+	} else {
+		t.Close()
+		ra, rb = Await(chA, 2200*time.Millisecond), Await(chB, 2200*time.Millisecond)
+		bad = ra.Kind == "hang" || rb.Kind == "hang"
+	}
 	h.Kinds[ra.Kind]++
 	h.Kinds[rb.Kind]++
-	if ra.Kind == "hang" || rb.Kind == "hang" {
-		h.Viol = append(h.Viol, WViol{Sig: "serial-reuse",
-			What:     "a command whose serial was handed out again while it was still outstanding is never answered, not even when the terminal disconnects",
-			Observed: fmt.Sprintf("command A written with serial %d, 65535 heartbeats, command B written with serial %d, disconnect: A %s, B %s", fa.Serial, fb.Serial, ra.Kind, rb.Kind),
-			Required: "both callers released with ErrNotExistKey"})
+	h.Note = "not-reproduced"
+	if bad {
+		h.Note = "reproduced"
+		what, req := "a command whose serial was handed out again while it was still outstanding is never answered, not even when the terminal disconnects", "both callers released with ErrNotExistKey"
+		if timer {
+			what, req = "a command whose serial was handed out again while its timer was asleep: the timer completes the NEWER command (foreign, early timeout) and the older caller is never answered", "A: timeout after 3 s; B: still waiting (20 s timeout)"
+		}
+		h.Viol = append(h.Viol, WViol{Sig: "serial-reuse", What: what,
+			Observed: fmt.Sprintf("command A written with serial %d, 65535 heartbeats, command B written with serial %d: A %s, B %s %s", fa.Serial, fb.Serial, ra.Kind, rb.Kind, rb.Raw),
+			Required: req})
 	}
 	return h
 }
@@ -1245,10 +1299,11 @@ func RunReuse(s *Srv, seed int64) *WHist {
 // within its timeout plus slack.
 func RunNoRead(s *Srv, seed int64) *WHist {
 	h := &WHist{Join: "o", Kinds: map[string]int{}, NCalls: 7}
+	fail := func(why string) *WHist { h.Note = "setup-failed: " + why; return h }
 	phoneA, phoneB := fmt.Sprintf("178%08d", seed%100000000), fmt.Sprintf("179%08d", seed%100000000)
 	c, err := net.DialTimeout("tcp", s.Addr, 3*time.Second)
 	if err != nil {
-		return h
+		return fail("dial: " + err.Error())
 	}
 	defer c.Close()
 	tc := c.(*net.TCPConn)
@@ -1257,8 +1312,10 @@ func RunNoRead(s *Srv, seed int64) *WHist {
 	buf := make([]byte, 64)
 	tc.SetReadDeadline(time.Now().Add(3 * time.Second))
 	if n, _ := tc.Read(buf); n == 0 {
-		return h
+		return fail("terminal A: no reply to the first heartbeat")
 	}
+	var flooded int64
+	var fmu sync.Mutex
 	go func() { // flood until the server stops reading (its reader is blocked behind the blocked writer)
 		one := TFrame(0x0002, phoneA, 1, nil)
 		var chunk []byte
@@ -1267,19 +1324,42 @@ func RunNoRead(s *Srv, seed int64) *WHist {
 		}
 		for {
 			tc.SetWriteDeadline(time.Now().Add(2 * time.Second))
-			if _, err := tc.Write(chunk); err != nil {
+			n, err := tc.Write(chunk)
+			fmu.Lock()
+			flooded += int64(n)
+			fmu.Unlock()
+			if err != nil {
 				return
 			}
 		}
 	}()
-	time.Sleep(1200 * time.Millisecond)
+	// the flood has stalled (the server stopped reading: its reader waits behind the blocked writer) when the
+	// byte count stops growing
+	var last int64 = -1
+	stalled := false
+	for i := 0; i < 40; i++ {
+		time.Sleep(100 * time.Millisecond)
+		fmu.Lock()
+		cur := flooded
+		fmu.Unlock()
+		if cur == last && cur > 0 {
+			stalled = true
+			break
+		}
+		last = cur
+	}
+	if !stalled {
+		return fail("the server kept reading the flood for 4 s: its writer never blocked")
+	}
 	tb, err := DialTerm(s.Addr, phoneB)
 	if err != nil {
-		return h
+		return fail("dial B: " + err.Error())
 	}
 	defer tb.Close()
 	tb.Send(0x0002, nil)
-	tb.Next(2 * time.Second)
+	if _, ok, _ := tb.Next(2 * time.Second); !ok {
+		return fail("terminal B: no reply to its first heartbeat")
+	}
 	var chs []<-chan CallRes
 	for i := 0; i < 6; i++ {
 		chs = append(chs, s.Call(phoneA, 0x8103, []byte{byte(i)}, 200*time.Millisecond))
@@ -1298,7 +1378,9 @@ func RunNoRead(s *Srv, seed int64) *WHist {
 	h.Kinds[rb.Kind]++
 	obs = append(obs, "B:"+rb.Kind)
 	bad = bad || rb.Kind == "hang"
+	h.Note = "not-reproduced"
 	if bad {
+		h.Note = "reproduced"
 		h.Viol = append(h.Viol, WViol{Sig: "blocked-write",
 			What:     "a terminal that stops reading blocks the connection writer in conn.Write (no write deadline): no timer is armed or applied, the commands queued behind it fill activeMsgChan and the session manager blocks for every terminal",
 			Observed: "6 calls to the non-reading terminal A and 1 call to the healthy terminal B, timeout 200 ms each, 2.2 s later: " + strings.Join(obs, " "),
